@@ -36,10 +36,10 @@ FILES = {
     "flumine/markets/markets.py": ["C20", "C15", "C11"],
     "flumine/markets/market.py": ["C20", "C02", "C08"],
     "flumine/baseflumine.py": ["C20", "C13", "C11"],
-    "flumine/simulation/simulation.py": ["C14", "C07", "C13", "C20"],
+    "flumine/simulation/simulation.py": ["C14", "C07", "C13", "C20", "C10", "C03"],
     "flumine/streams/historicalstream.py": ["C14"],
     "flumine/simulation/utils.py": ["C14"],
-    "flumine/utils.py": ["C01", "C05", "C13"],
+    "flumine/utils.py": ["C01", "C05", "C13", "C14"],
 }
 SKIP_FUNCS = {"__repr__", "__str__", "info", "__init__"}
 CMP = {ast.Lt: ast.LtE, ast.LtE: ast.Lt, ast.Gt: ast.GtE, ast.GtE: ast.Gt, ast.Eq: ast.NotEq, ast.NotEq: ast.Eq, ast.Is: ast.IsNot, ast.IsNot: ast.Is, ast.In: ast.NotIn, ast.NotIn: ast.In}
